@@ -79,12 +79,13 @@ def run(tier, seed, t0):
             if impl != m:
                 raise C.Violation(PROP, "correspondence parse model vs Response::from_bytes fails on numeric input (model stale; the implementation-side oracle found no wrapped or unrejected number)",
                                   "stream %s\ninput %s\nimplementation: %s\nmodel:          %s" % (stream, C.show_input(h), impl[:400], m[:400]), False)
+    fn_cases, fn_count = C.fn_correspondence(PROP, tier)   # every callable parser function on its own inputs, model vs code
     C.write_evidence(PROP, tier, seed, t0, obligations=proof["obligations"] + 1, discharged=proof["discharged"] + 1,
                      checker_cmd="tools/rs2coq /repo coq/gen && make -C coq Properties/C13.vo (coqc 8.16.1) + harness parse {valid,numeric,corpus} vs ocaml/driver parse",
                      evaluations=total + evals, distinct_nontrivial=distinct,
                      rule="search oracle (implementation only): (1) generated values with numerics at 0, 1, 2^31-1, 2^31, 2^32-2, 2^32-1, 2^63, 2^64-2, 2^64-1 and random, printed with up to 30 leading zeros at every numeric position of every response kind (the RFC-derived printer knows each field's width), must parse back to exactly the value; (2) each numeral overwritten by 2^32, 2^32+1, 2^32+4, 2^64-1 (32-bit fields), 2^64, 2^64+1, 2^64+4, 2^128, 41 digits, with and without leading zeros: the response must be a parse error, or inside a response code the code must be None and the text must contain the numeral verbatim. distinct = distinct inputs containing a numeral.",
                      samples=samples,
-                     extra=dict(theorems=proof["names"], correspondence_cases=evals),
+                     extra=dict(theorems=proof["names"], correspondence_cases=evals, per_function_cases=fn_cases, per_function_fns=fn_count),
                      assumptions=["u32::from_str / u64::from_str on a digit string modelled as `dec ds < 2^bits` (Nom.number_p); validated on the boundary set by the correspondence",
                                   "which width applies at which position is taken from the RFC-derived printer on the implementation side, not proved against types.rs"])
     print("C13 ok: %d theorems; search %d cases; correspondence %d cases" % (proof["obligations"], total, evals))
